@@ -14,23 +14,37 @@ from ..gen import text as T
 CONFIGS = [None, ('    ', 79, 2), ('  ', 79, 2), ('\t', 79, 2), ('    ', 20, 2), ('    ', 120, 1), ('  ', 20, 1)]
 
 
+_config_objects = {}
+
+
 def make_config(c):
+    """One config object per configuration for the whole process: callers normally keep theirs, and a memo keyed by the
+    config object's identity would otherwise never be exercised."""
     if c is None:
         return None
-    return PEP8NormalizerConfig(indentation=c[0], max_characters=c[1], spaces_before_comment=c[2])
+    o = _config_objects.get(c)
+    if o is None:
+        o = _config_objects[c] = PEP8NormalizerConfig(indentation=c[0], max_characters=c[1], spaces_before_comment=c[2])
+    return o
 
 
 def ituple(i):
     return (i.code, i.message, tuple(i.start_pos), tuple(i.end_pos))
 
 
-def diff_parse(g, texts, key):
-    """Parse the history ``texts`` incrementally under a private path key; returns the last module."""
+def diff_parse(g, texts, key, after_each=None):
+    """Parse the history ``texts`` incrementally under a private path key; returns the last module.
+    ``after_each(module)`` is called after every step (e.g. to list issues of the intermediate states too)."""
     path = Path('/nonexistent/vf-%s.py' % key)
     m = None
     try:
         for t in texts:
             m = g.parse(t, diff_cache=True, path=path)
+            if after_each is not None:
+                try:
+                    after_each(m)
+                except Exception:
+                    pass
     finally:
         pcache.parser_cache.get(g._hashed, {}).pop(path, None)
     return m
@@ -153,7 +167,8 @@ class C20(Prop):
             texts.reverse()
             texts.append(code)
             try:
-                md = diff_parse(g, texts, digest(code, v).hex())
+                # issues are also listed on every intermediate state (same module object, same config object)
+                md = diff_parse(g, texts, digest(code, v).hex(), after_each=lambda mod: issues_of(g, mod, cfg))
                 if first_tree_diff(m, md) is None:
                     classes.append('diff-provenance-compared')
                     idf = issues_of(g, md, cfg)
